@@ -715,6 +715,7 @@ func (st *store) exec(line string) (out string) {
 		s2.CompressMode(m2)
 		blob := s1.Serialize(nil, *src)
 		lastBlob = blob
+		noteBlob(blob)
 		d, err := s2.Deserialize(blob, nextSerde.dst)
 		nextSerde = serdeOpts{m1: simdjson.CompressDefault, m2: simdjson.CompressDefault}
 		if err != nil {
@@ -725,6 +726,7 @@ func (st *store) exec(line string) (out string) {
 	case "deser":
 		ts, _ := strconv.ParseUint(ws[2], 10, 64)
 		blob := frameBlob(ts, unhx(ws[3]), unhx(ws[4]), unhx(ws[5]), unhx(ws[6]))
+		noteBlob(blob)
 		d, err := simdjson.NewSerializer().Deserialize(blob, nil)
 		if err != nil {
 			return "err"
@@ -735,6 +737,7 @@ func (st *store) exec(line string) (out string) {
 		// model-side check of the byte format; the implementation wrote these bytes
 		return "same"
 	case "deserraw":
+		noteBlob(unhx(ws[2]))
 		d, err := simdjson.NewSerializer().Deserialize(unhx(ws[2]), nil)
 		if err != nil {
 			return "err"
